@@ -74,6 +74,16 @@ PROPS = {
             "in unit cmd the contracts of frame.rs and connection.rs are assumed (R-stub-body) because they are verified in units resp and net, which this check also runs",
         ],
     },
+    "C16": {
+        "units": ["net", "cmd"], "label_prefixes": ["C06.run.pairing", "C08.write.spec", "C08.write.single_spec", "C08.write.array_spec", "C06.apply.reply", "C06.get.reply", "C06.set.reply", "C06.del.reply"],
+        "level": "proof",
+        "trusted": ["T1", "T2", "T3", "T4", "T4b", "T5", "T5b", "T6", "T7", "T13", "T13b", "T14", "TKV", "TSPAWN", "TSELECT", "TITER", "RW", "DERIVE"],
+        "assumptions": [
+            "SCOPE-LIMITED: clauses 2 and 3 of the statement, for one connection; clause 1 (the server stops and run returns within bounded time) is a liveness property of the tokio runtime and is NOT claimed. Proved: Handler::run (verified verbatim after R-select) can leave its loop on the shutdown signal only BETWEEN two requests -- at the loop head or in the select! arm that has not started reading -- and at every Ok exit, those included, (a) the bytes written to the connection are exactly the replies to the first `served` requests, each one a complete frame that write_frame has flushed (C06.run.pairing over C08.write.spec: flushed == everything written), so a client receives only whole replies before the stream ends; (b) the engine's map is exactly the result of those `served` requests (map_after): every command whose reply was sent is reflected in the store. R-select reads tokio::select! as a choice of ONE arm run to completion: that read_frame, if it is the arm that loses, has consumed nothing that matters is argued (the other arm returns from run, and read_buf is cancel-safe), not machine-checked",
+            "NOT covered: the Listener / Server side of the handshake (broadcast of the signal, waiting for the handlers through the mpsc channel, the accept loop), time bounds, connections that are mid-frame (read_frame's error on a half-received frame is C08's), persistence of the acknowledged data beyond the process (C09)",
+            "bounded companion on the real code (thorough tier / witness): the real Server with the shutdown future fired at pseudo-random moments in the middle of 200 pipelined SETs; the bytes received must be whole +OK replies and every acknowledged SET must be in the reopened store",
+        ],
+    },
     "C10": {
         "units": ["resp", "net", "cmd", "cmd10"], "label_prefixes": ["C10.", "C07.", "C06.decode.", "C06.key."], "level": "proof",
         "trusted": ["T1", "T2", "T3", "T4", "T4b", "T5", "T5b", "T6", "T7", "T13", "T13b", "T14", "TKV", "TSPAWN", "TSELECT", "TITER", "RW", "DERIVE"],
